@@ -35,7 +35,10 @@ ASSUMPTIONS = (
 
 CLOSE_CODES = [None, 1000, 1001, 3000, 4999, 999, 1004, 1005, 1006, 1015, 1999, 'x', 1011, 3404]
 RAISES = [('http_error', 400), ('http_error', 404), ('http_error', 503), ('http_named', 403),
-          ('http_status', 200), ('http_status', 404), ('generic',), ('custom',)]
+          ('http_status', 200), ('http_status', 404), ('generic',), ('custom',),
+          # the responder fails with a disconnect that concerns somebody else's connection (a relay,
+          # a broadcast): its own client is still there and is owed the error close
+          ('ws_disconnected',)]
 
 
 def valid_close(code):
